@@ -8,6 +8,7 @@ package main
 // preservation obligations into quantifier-free queries.
 
 import (
+	"sort"
 	"fmt"
 	"strings"
 )
@@ -137,6 +138,21 @@ func conjunctForalls(body string, out *[]string) {
 	if strings.HasPrefix(body, "(and ") {
 		for _, c := range sexpList(body)[1:] {
 			conjunctForalls(c, out)
+		}
+		return
+	}
+	if strings.HasPrefix(body, "(=> ") {
+		// (=> g (forall xs b)) is (forall xs (=> g b)) when g is quantifier-free (binder names are unique)
+		p := sexpList(body)
+		if len(p) == 3 && !strings.Contains(p[1], "(forall ") && !strings.Contains(p[1], "(exists ") && strings.Contains(p[2], "(forall ") {
+			var inner []string
+			conjunctForalls(p[2], &inner)
+			for _, fa := range inner {
+				fp := sexpList(fa)
+				if _, b, ok := parseForall(fa); ok && len(fp) == 3 {
+					*out = append(*out, "(forall "+fp[1]+" (=> "+p[1]+" "+b+"))")
+				}
+			}
 		}
 		return
 	}
@@ -335,6 +351,20 @@ func forEachSelect(text string, f func(arr, idx string)) {
 	}
 }
 
+// cancelSub builds (sub g off), simplified to t when g is syntactically (add off t) or (add t off).
+func cancelSub(sub, add, g, off string) string {
+	gp := sexpList(g)
+	if len(gp) == 3 && gp[0] == add {
+		if gp[1] == off {
+			return gp[2]
+		}
+		if gp[2] == off {
+			return gp[1]
+		}
+	}
+	return "(" + sub + " " + g + " " + off + ")"
+}
+
 // termInstances instantiates universally quantified conjuncts at index terms
 // that occur in array reads of the quantifier-free part of the query.
 func (vc *VC) termInstances(needed map[string]bool, hyps []string, goal string, sks []skolem) []string {
@@ -418,9 +448,9 @@ func (vc *VC) termInstances(needed map[string]bool, hyps []string, goal string, 
 								sub = "-"
 							}
 							if p[2] == b.name && !strings.Contains(p[1], b.name) {
-								cands["("+sub+" "+g+" "+p[1]+")"] = true
+								cands[cancelSub(sub, p[0], g, p[1])] = true
 							} else if p[1] == b.name && !strings.Contains(p[2], b.name) {
-								cands["("+sub+" "+g+" "+p[2]+")"] = true
+								cands[cancelSub(sub, p[0], g, p[2])] = true
 							}
 						}
 					}
@@ -434,9 +464,17 @@ func (vc *VC) termInstances(needed map[string]bool, hyps []string, goal string, 
 				}
 			}
 			ks := sortedKeys(cands)
+			// most relevant first: terms over the goal's skolem constants, then shorter terms
+			sort.SliceStable(ks, func(a, b int) bool {
+				sa, sb := strings.Contains(ks[a], "sk!"), strings.Contains(ks[b], "sk!")
+				if sa != sb {
+					return sa
+				}
+				return len(ks[a]) < len(ks[b])
+			})
 			lim := 24
 			if len(bs) == 2 {
-				lim = 8
+				lim = 10
 			} else if len(bs) == 3 {
 				lim = 4
 			}
@@ -465,22 +503,71 @@ func (vc *VC) termInstances(needed map[string]bool, hyps []string, goal string, 
 			out = append(out, inst)
 		}
 	}
-	for _, h := range hyps {
-		var fas []string
-		conjunctForalls(h, &fas)
-		for _, fa := range fas {
-			emit("", fa)
+	pass := func() {
+		// the goal's own quantified antecedents: (=> fa fa[t]) is valid, and the negated goal asserts fa
+		if strings.HasPrefix(goal, "(=> ") {
+			if gp := sexpList(goal); len(gp) == 3 && strings.Contains(gp[1], "(forall ") {
+				var fas []string
+				conjunctForalls(gp[1], &fas)
+				for _, fa := range fas {
+					emit(fa, fa)
+				}
+			}
+		}
+		for _, h := range hyps {
+			var fas []string
+			conjunctForalls(h, &fas)
+			for _, fa := range fas {
+				emit("", fa)
+			}
+		}
+		for _, d := range vc.defs {
+			if !needed[d.Name] || d.Body == "" || d.Sort != "Bool" || !strings.Contains(d.Body, "(forall ") {
+				continue
+			}
+			var fas []string
+			conjunctForalls(d.Body, &fas)
+			for _, fa := range fas {
+				emit(d.Name, fa)
+			}
 		}
 	}
-	for _, d := range vc.defs {
-		if !needed[d.Name] || d.Body == "" || d.Sort != "Bool" || !strings.Contains(d.Body, "(forall ") {
-			continue
+	pass()
+	// further rounds: instances mention new array reads (e.g. the source positions of a copy, which in
+	// turn are defined by an append); instantiate again at those, up to three more times
+	for round := 0; round < 3; round++ {
+		prev := out
+		if len(prev) == 0 || len(prev) > 600 {
+			break
 		}
-		var fas []string
-		conjunctForalls(d.Body, &fas)
-		for _, fa := range fas {
-			emit(d.Name, fa)
+		nGround := 0
+		for _, m := range ground {
+			nGround += len(m)
 		}
+		for _, in := range prev {
+			addGround(stripQ(in))
+		}
+		n2 := 0
+		for _, m := range ground {
+			n2 += len(m)
+		}
+		if n2 == nGround {
+			break
+		}
+		out = nil
+		pass()
+		seen := map[string]bool{}
+		var uniq []string
+		for _, in := range append(prev, out...) {
+			if !seen[in] {
+				seen[in] = true
+				uniq = append(uniq, in)
+			}
+		}
+		if len(uniq) > 900 {
+			uniq = uniq[:900]
+		}
+		out = uniq
 	}
 	return out
 }
